@@ -227,7 +227,9 @@ fn main() {
                         Op::ApiBatch(t, rs) if code > 0 => {
                             Some(if rs.iter().any(|r| api_row_normalised(*t, r)) { Ev::NormalisedInsert } else { Ev::CleanInsert })
                         }
-                        Op::ApiBatch(..) if code < 0 && changed => Some(Ev::PartialBatch),
+                        // a batch (API call or multi-row INSERT) that got some rows in before a later
+                        // row was rejected or made the table normaliser panic
+                        Op::ApiBatch(..) | Op::Insert(..) | Op::ApiInsert(..) if code < 0 && changed => Some(Ev::PartialBatch),
                         Op::Update(..) if code > 0 => Some(if recorded { Ev::RecordedUpd } else { Ev::UnrecordedUpdDel }),
                         Op::Delete(..) if code > 0 => Some(if recorded { Ev::RecordedDel } else { Ev::UnrecordedUpdDel }),
                         _ => None,
